@@ -17,6 +17,7 @@ import (
 	"github.com/onflow/cadence/common"
 	"github.com/onflow/cadence/sema"
 
+	"verif/harness/internal/cdc"
 	"verif/harness/internal/hx"
 )
 
@@ -161,8 +162,75 @@ func execAuth(op []string) string {
 	case "domain":
 		m := authParse(op[2]).(*sema.EntitlementMapAccess)
 		return authRender(m.Domain())
+	case "prog":
+		return authProg(op[2], op[3], op[4], op[5], op[6])
 	}
 	panic("unknown op")
+}
+
+func authTypeAuth(a string) string {
+	switch {
+	case a == "p:all":
+		return ""
+	case strings.HasPrefix(a, "c:"):
+		return "auth(" + strings.ReplaceAll(a[2:], ",", ", ") + ") "
+	case strings.HasPrefix(a, "d:"):
+		return "auth(" + strings.ReplaceAll(a[2:], ",", " | ") + ") "
+	}
+	panic("bad authorization " + a)
+}
+
+// authProg: a struct T with a member `f` of mapping access (the last mapping of an include chain),
+// a reference `auth(a) &T` upcast to `auth(b) &T`, and a call of `f.p()` where `p` requires `req`.
+// chain = "<ident>:<rels>/<ident>:<rels>/..." — mapping i includes mapping i-1.
+// Result: ok (checked and ran, returned 1) | reject (checker error) | other classes.
+func authProg(a, b, req, chain, engine string) string {
+	var sb strings.Builder
+	for _, e := range []string{"A", "B", "C", "D", "E", "F"} {
+		sb.WriteString("access(all) entitlement " + e + "\n")
+	}
+	ms := strings.Split(chain, "/")
+	for i, m := range ms {
+		parts := strings.SplitN(m, ":", 2)
+		sb.WriteString("access(all) entitlement mapping M" + strconv.Itoa(i) + " {\n")
+		if i > 0 {
+			sb.WriteString("  include M" + strconv.Itoa(i-1) + "\n")
+		}
+		if parts[0] == "1" {
+			sb.WriteString("  include Identity\n")
+		}
+		for _, r := range authSplit(parts[1], ";") {
+			io := strings.SplitN(r, ">", 2)
+			sb.WriteString("  " + io[0] + " -> " + io[1] + "\n")
+		}
+		sb.WriteString("}\n")
+	}
+	last := "M" + strconv.Itoa(len(ms)-1)
+	reqAccess := "all"
+	if req != "p:all" {
+		reqAccess = strings.TrimSuffix(strings.TrimPrefix(authTypeAuth(req), "auth("), ") ")
+	}
+	sb.WriteString("access(all) struct G { access(" + reqAccess + ") fun p(): Int { return 1 } }\n")
+	sb.WriteString("access(all) struct T {\n  access(mapping " + last + ") let f: G\n  init() { self.f = G() }\n}\n")
+	sb.WriteString("access(all) fun main(): Int {\n  let t = T()\n")
+	sb.WriteString("  let r = &t as " + authTypeAuth(a) + "&T\n")
+	sb.WriteString("  let up = r as " + authTypeAuth(b) + "&T\n")
+	sb.WriteString("  return up.f.p()\n}\n")
+	env := cdc.NewEnv()
+	out := env.Script(sb.String(), nil, engine == "vm")
+	switch out.Class {
+	case "none":
+		if out.Value != nil && out.Value.String() == "1" {
+			return "ok"
+		}
+		return "ok-wrong-value"
+	case "user":
+		if strings.Contains(out.Kind, "CheckerError") || strings.Contains(out.Kind, "ParsingCheckingError") {
+			return "reject"
+		}
+		return "err-user:" + out.Kind
+	}
+	return "err-" + out.Class + ":" + out.Kind
 }
 
 func authSubsets(u []string) [][]string {
@@ -261,5 +329,87 @@ func genAuth(c *hx.Ctx) {
 		c.Emit("auth", "image", spec, a)
 		c.Emit("auth", "image", spec, b)
 		c.Emit("auth", "domain", spec)
+	}
+	// --- programs: a mapped member read through an upcast reference, checker + one engine
+	progAuth := func() string {
+		if r.Chance(10) {
+			return "p:all"
+		}
+		k := 1 + r.Intn(3)
+		perm := []string{"A", "B", "C", "D"}
+		for i := range perm {
+			j := i + r.Intn(len(perm)-i)
+			perm[i], perm[j] = perm[j], perm[i]
+		}
+		s := perm[:k]
+		if k >= 2 && r.Chance(50) {
+			return "d:" + authSetStr(s)
+		}
+		return "c:" + authSetStr(s)
+	}
+	nprog := c.N / 4
+	for i := 0; i < nprog; i++ {
+		a := progAuth()
+		b := a
+		switch r.Intn(4) { // bias toward permitted upcasts
+		case 0:
+			b = progAuth()
+		case 1: // widen: a conjunction's subset or a disjunction containing one of its members
+			if strings.HasPrefix(a, "c:") {
+				es := authSplit(a[2:], ",")
+				x := es[r.Intn(len(es))]
+				others := []string{}
+				for _, o := range u4 {
+					if o != x {
+						others = append(others, o)
+					}
+				}
+				if r.Bool() {
+					b = "d:" + x + "," + others[r.Intn(len(others))]
+				} else {
+					b = "c:" + x
+				}
+			} else if strings.HasPrefix(a, "d:") {
+				es := authSplit(a[2:], ",")
+				for _, o := range u4 {
+					if !strings.Contains(a, o) {
+						es = append(es, o)
+						break
+					}
+				}
+				b = "d:" + authSetStr(es)
+			}
+		case 2:
+			b = "p:all"
+		}
+		nm := 1 + r.Intn(3)
+		var chain []string
+		for j := 0; j < nm; j++ {
+			var rel []string
+			k := r.Intn(4)
+			seen := map[string]bool{}
+			for l := 0; l < k; l++ {
+				p := u4[r.Intn(4)] + ">" + u6[r.Intn(len(u6))]
+				if !seen[p] { // a duplicate relation is a checker error of its own
+					seen[p] = true
+					rel = append(rel, p)
+				}
+			}
+			id := "0"
+			if r.Chance(15) {
+				id = "1"
+			}
+			chain = append(chain, id+":"+strings.Join(rel, ";"))
+		}
+		var req string
+		switch r.Intn(4) {
+		case 0:
+			req = "p:all"
+		case 1:
+			req = "d:" + u6[r.Intn(3)] + "," + u6[3+r.Intn(3)]
+		default:
+			req = "c:" + u6[r.Intn(len(u6))]
+		}
+		c.Emit("auth", "prog", a, b, req, strings.Join(chain, "/"), []string{"interp", "vm"}[r.Intn(2)])
 	}
 }
